@@ -33,4 +33,34 @@ TEXT = {
         design_ref='DESIGN.md §5 C14',
         note="partial: the run-time clauses are sampled, not proved; the JSON half currently relies on serde_json's own totality and is exercised by the json stream only where modelled.",
     ),
+    'C01': dict(
+        technique='Lean 4 invariant proof over all registration histories (DFS post-condition + boundary invariant), builder and retain well-formedness theorems, decode∘encode; differential correspondence of Registry / builder / retain / codec with the model, Spec.wf evaluated on every registry the real code produces',
+        level="Proof: SIM.C01.run_wf (for EVERY environment, fuel and finite sequence of register_type/register_types/map_into_portable the resulting PortableRegistry is dense and closed), resolve_dense (indexing is lookup by id), builder_finish_dense/_wf, decode_encode_wf, and SIM.C10.retain_wf. Tie: the real Registry is driven with generated graphs through a const-generic type family and compared snapshot by snapshot with the model; builder, retain and codec streams likewise; the executable WF predicate is evaluated on every registry the implementation returns.",
+        design_ref='DESIGN.md §5 C01, §4',
+        note="The environment (type_info() of each identity) is an input; fuel is a proof device (C02.register_total). BTreeMap modelled as a key-sorted association list. Model tied to code by differential runs only.",
+    ),
+    'C02': dict(
+        technique='Lean 4 proof that after any history every interned identity resolves to its definition with references mapped to ids (faithful + closed), termination bound for cyclic graphs; rooted graph-isomorphism oracle on the real registry',
+        level="Proof: SIM.C02.register_faithful (for every history and every interned identity t: resolve(final, id t) = (env t).map id, and all referenced identities interned), returned_ids (the id returned by each operation is the final id), map_shape (mapping changes nothing but references), register_total (fuel N+1 suffices for any graph closed over N identities: registration of recursive and mutually recursive types terminates), fuel_irrelevant. Tie: generated graphs incl. cycles and types first met as parameters through the real Registry; oracle = rooted isomorphism between type graph and registry from the returned ids.",
+        design_ref='DESIGN.md §5 C02',
+        note="type_info() of real Rust types enters as the environment; real built-in/derived corpora are compared in the program-based checks (C04/C09). TypeId modelled as Nat.",
+    ),
+    'C05': dict(
+        technique='Lean 4 proofs: idempotent re-registration, interned set = reachable set, no duplicates, each definition evaluated exactly once; evaluation counters and alias families observed on the real Registry',
+        level="Proof: SIM.C05.register_idempotent (state equal, existing id), interned_eq_reachable (x interned iff reachable from the registered roots), one_entry_per_identity, eval_once (count <= 1, = 1 iff reachable), distinct_ids. Tie: registry stream with repeated / interleaved re-registration through Alias<N,K> (same Identity, different fn pointer) and PhantomData instantiations; oracle counts entries against the reachable set and checks per-identity evaluation counters.",
+        design_ref='DESIGN.md §5 C05',
+        note="partial until the meta stream is claimed: the table of std aliases (Box/Rc/Arc/&/&mut, Vec/VecDeque/slice, String/str, PhantomData) is checked by C16's stream; see DESIGN.md.",
+    ),
+    'C10': dict(
+        technique='Lean 4 proof of retain (totality, well-formedness, keys = reachable set, bijection, entry = original mapped) for all well-formed registries and filters + differential correspondence with hang/panic attribution',
+        level="Proof: SIM.C10.retain_total (fuel |r|+1 suffices, no dangling access, the placeholder is never read), retain_wf, retain_keys (keys of the map = ids reachable from the accepted ids, through parameters, fields, elements, tuple members, compact and bit-sequence parameters alike because all are Ty.refs), retain_bij (k-th inserted key maps to k), retain_entry, retain_lookup, for EVERY well-formed registry and filter. Tie: the real retain on generated well-formed registries and filters vs the literal model (placeholder push, memo before recursion, slot overwrite), oracle Spec.retainOk on the real output.",
+        design_ref='DESIGN.md §5 C10',
+        note="filter modelled as a pure predicate; BTreeMap<u32,u32> as an association list compared after sorting by key.",
+    ),
+    'C11': dict(
+        technique='Lean 4 proofs of append-only extension (ids keep resolving to the same definition), determinism, and permutation invariance up to an explicit renaming; snapshots, replay and permuted histories on the real Registry',
+        level="Proof: SIM.C11.register_extends (for any history split ops1 ++ ops2 the interner of the later state extends the earlier and every earlier id resolves to the same definition), run_append, perm_iso (for permuted root lists the two registries have the same identities, the same size, and are equal up to the explicit injective renaming sigma = id' o identityAt), determinism by functionality. Tie: snapshot after every operation, byte-identical replay, random permutations and reversal of the roots, rooted isomorphism oracle.",
+        design_ref='DESIGN.md §5 C11',
+        note="as C01.",
+    ),
 }
